@@ -274,10 +274,19 @@ fn annotation_sites(m: &Model, ctx: &mut Ctx) {
             let key = format!("{}: mangled={} original={}", f.name, mangled, original);
             ctx.oblige("C16.annot", &key, true);
             let fired: RefCell<bool> = RefCell::new(false);
+            // the spelling handed to format_identifier_annotation (its first argument)
+            let recorded: RefCell<Option<Val>> = RefCell::new(None);
             let hook = |_: &Evaluator, name: &str, _args: &[Val]| -> Option<Result<Val, String>> {
+                if name == ".format_identifier_annotation" {
+                    *recorded.borrow_mut() = _args.get(1).cloned();
+                }
                 if name == ".push" || name == ".format_identifier_annotation" {
                     *fired.borrow_mut() = true;
                     return Some(Ok(Val::Sym("identifier".into())));
+                }
+                // the manglers: whatever they are given, the Rust spelling of this scenario
+                if name == ".to_rust_title_case" || name == ".to_rust_snake_case" || name == ".to_rust_enum_identifier" || name == ".to_rust_const_case" {
+                    return Some(Ok(Val::Str(mangled.into())));
                 }
                 None
             };
@@ -301,6 +310,25 @@ fn annotation_sites(m: &Model, ctx: &mut Ctx) {
             };
             let ev = Evaluator { consts: ev.consts, call_hook: &hook2, inline: None };
             env.insert("member".into(), Val::ctor("member"));
+            env.insert("self".into(), Val::ctor("Rasn"));
+            // locals the decision may use (`let rust_name = name.to_string();`): the function's own `let`s, best effort, in order
+            for st in &f.block.stmts {
+                if let syn::Stmt::Local(l) = st {
+                    if let (syn::Pat::Ident(pi), Some(init)) = (&l.pat, &l.init) {
+                        let var = pi.ident.to_string();
+                        if env.contains_key(&var) {
+                            continue;
+                        }
+                        if let Ok(v) = ev.eval(&init.expr, &mut env.clone()) {
+                            if matches!(v, Val::Str(_) | Val::Bool(_)) {
+                                env.insert(var, v);
+                            }
+                        }
+                    }
+                }
+            }
+            *fired.borrow_mut() = false;
+            *recorded.borrow_mut() = None;
             let r = ev.eval(&syn::Expr::If(stmt.clone()), &mut env);
             match r {
                 Ok(v) => {
@@ -309,6 +337,12 @@ fn annotation_sites(m: &Model, ctx: &mut Ctx) {
                     if did != want {
                         ctx.violate("C16.annot", &format!("decision:{}:{}", f.name, if want { "differs" } else { "equal" }), &f.file, span_line(stmt),
                             &format!("[{}] the identifier annotation is {}: it must be emitted exactly when the Rust identifier differs from the ASN.1 name", key, if did { "emitted" } else { "missing" }));
+                    }
+                    if let (true, Some(Val::Str(sp))) = (did && mangled != original, recorded.borrow().clone()) {
+                        if sp != original {
+                            ctx.violate("C16.annot", &format!("records-rust-spelling:{}", f.name), &f.file, span_line(stmt),
+                                &format!("[{}] the identifier annotation is given `{}`; it must record the original ASN.1 spelling `{}`", key, sp, original));
+                        }
                     }
                 }
                 Err(e) => ctx.fail_closed("C16.annot", &format!("[{}]: {}", key, e)),
